@@ -95,6 +95,7 @@ def lean_ty(t):
     if t == "keyfn": return "(V.Elem → Nat)"
     if t == OVECREF: return "V.VS"
     if t == ESLICE: return "(List V.Elem)"
+    if t == ("esliceiter",): return "(List V.Elem)"
     if t == VECSNAP: return "V.VS"
     if t == CB2: return "(Nat → V.Elem → V.Elem → Option Bool)"
     if t == BUF: return "(List (Option V.Elem))"
@@ -287,6 +288,7 @@ FUNCS += [
     Fn("write", "vec", "st", file=VEC_RS, group="VecCopy", anchor="io::Write for Vec<'bump, u8>", lean="vec_io_write", ptypes={"buf": "xslice"}, ret=res(NAT)),
     Fn("write_all", "vec", "st", file=VEC_RS, group="VecCopy", anchor="io::Write for Vec<'bump, u8>", lean="vec_io_write_all", ptypes={"buf": "xslice"}, ret=res(UNIT)),
     Fn("flush", "vec", "st", file=VEC_RS, group="VecCopy", anchor="io::Write for Vec<'bump, u8>", lean="vec_io_flush", ret=res(UNIT)),
+    Fn("extend", "vec", "st", file=VEC_RS, group="VecCopy", anchor="Extend<&'a T> for Vec<'bump, T>", lean="vec_extend_refs", ptypes={"iter": ("esliceiter",)}),
 ]
 for _f in FUNCS:
     if _f.lean == "vec_append":
@@ -338,7 +340,7 @@ FN_LEAN = {f.lean: f for f in FUNCS}
 # names that exist on several receivers: the table is per receiver kind
 FN_BY_KIND = {}
 for f in FUNCS:
-    FN_BY_KIND[(f.kind, f.name)] = f
+    FN_BY_KIND.setdefault((f.kind, f.name), f)      # the first row of a name is the one calls resolve to
 
 # functions of the crate that are *not* translated but called by translated ones: mapped to the hand model
 EXTERNAL = {
@@ -830,6 +832,8 @@ class Tr:
                 return f"(V.It.cloned {paren(t)}.owned)", VIT
             if ty == VIT and name == "into_iter" and not args:
                 return t, VIT
+            if ty == ("esliceiter",) and name == "into_iter" and not args:
+                return t, ty
             if ty == VIT and name == "size_hint" and not args:
                 return f"({paren(t)}.hintLo, ())", ("tuple", [NAT, UNIT])
             if ty == XSLICE and name == "len" and not args:
